@@ -61,9 +61,15 @@ static int verif_fputs(const char *s, FILE *f) { for (int k = 0; k < 8 && s[k]; 
 #define putc verif_fputc
 #define fputs verif_fputs
 
+// print_tokens checks its stream for write errors (ferror/fflush); the capture buffer never fails
+#undef ferror
+#define ferror(f) 0
+#define fflush(f) 0
 #define main chibicc_main
 #include "main.c"
 #undef main
+#undef ferror
+#undef fflush
 
 FILE *stub_open_file(char *path) { return stdout; }
 
